@@ -50,3 +50,13 @@ Theorem C20_designs_modify_disjoint_files : forall e1 e2 f1 f2 fr1 fr2 o1 o2 t1 
   forall p, In p (mods e1 f1 fr1 design_fx) -> In p (mods e2 f2 fr2 design_fx) -> False.
 Proof. exact designs_disjoint. Qed.
 Print Assumptions C20_designs_modify_disjoint_files.
+
+(* ... and from file sets to the conclusion: processes that write only into pairwise disjoint file sets which no other process
+   reads end, under every interleaving of their atomic file operations, in the same files and the same observations *)
+Theorem C20_disjoint_file_sets_commute : forall (V : Type) (g : gstate V) (W R : nat -> list string) s1 s2,
+  (forall i p, In p (writes V (queue V (snd g i))) -> In p (W i)) ->
+  (forall i p, In p (reads V (queue V (snd g i))) -> In p (R i)) ->
+  (forall i j, i <> j -> forall p, In p (W i) -> ~ In p (W j) /\ ~ In p (R j)) ->
+  Permutation s1 s2 -> geq V (run V s1 g) (run V s2 g).
+Proof. exact runs_with_disjoint_sets_commute. Qed.
+Print Assumptions C20_disjoint_file_sets_commute.
